@@ -305,6 +305,8 @@ Ref(t, o) ==
       [] o.op = "owrite_p"       -> OWriteRef(t, o.p, o.c, FALSE, FALSE, FALSE, FALSE)  \* write only
       [] o.op = "oopen"          -> OOpenRef(t, o.p, o.c, o.f)
       [] o.op = "read"           -> ReadRef(t, o.p)
+      \* fs::read of a file OUTSIDE the tree whose read(2) calls come back short (o.c = what the observer read)
+      [] o.op = "read_x"         -> R("ok", t, o.c)
       [] o.op = "copy"           -> CopyRef(t, o.p, o.q)
       [] o.op = "copy_lim"       -> CopyLimRef(t, o.p, o.q, o.c.n)
       [] o.op = "write_lim"      -> WriteLimRef(t, o.p, o.c, o.f)
@@ -336,6 +338,7 @@ ListingOk(v, L) ==          \* v: sequence of <<name, kind>>; every child exactl
 
 ValueOk(o, ref, v) ==
     CASE o.op = "read"     -> v = ref.v
+      [] o.op = "read_x"   -> v = ref.v
       [] o.op = "oopen"    -> v = ref.v
       [] o.op = "exists"   -> v = ref.v
       [] o.op = "metadata" -> v.dir = ref.v.dir /\ v.file = ref.v.file /\ (ref.v.file => v.len = ref.v.len)
@@ -344,7 +347,7 @@ ValueOk(o, ref, v) ==
 
 \* paths of the operation that end in "link/" are not judged
 OpUnjudged(t, o) ==
-    \/ Unjudged(t, o.p)
+    \/ (o.op # "read_x" /\ Unjudged(t, o.p))
     \/ o.op \in {"copy", "copy_lim", "fcopy", "rename"} /\ Unjudged(t, o.q)
     \/ o.op \in {"copy", "copy_lim", "fcopy"} /\ CopySameNode(t, o.p, o.q)
 
